@@ -46,6 +46,8 @@ def run(tier):
             expand.usable_size_rule(chk, 'C08.xpand', prog, p, cfgname)
             expand.growth_progress_rule(chk, 'C08.xpand', prog, p, cfgname)
             expand.rollback_mark_rule(chk, 'C08.xpand', prog, p, cfgname)
+            expand.failure_status_rule(chk, 'C08.xpand', prog, p, cfgname)
+            expand.retry_termination_rule(chk, 'C08.xpand', prog, p, cfgname)
         chk.clause('C08.query', 'R3 oracle group `query` (lwork = -1) of ?gssvx / ?gsisx (D3)')
         nl = 0
         for p in _drv.PRECS:
